@@ -13,11 +13,13 @@ NOW = 5
 S = {
     "c1": (2, {"CPU": 1}), "c2": (2, {"CPU": 2}), "g1": (1, {"GPU": 1}),
     "cg": (3, {"CPU": 1, "GPU": 1}), "c1s": (3, {"CPU": 1}),
+    # a zero-quantity entry next to a real one (legal in workload files): needs no GPU
+    "c1z": (2, {"CPU": 1, "GPU": 0}),
 }
 STRAT_LISTS = [
     ("c1",), ("c2",), ("g1",), ("cg",),
     ("c2", "c1s"), ("g1", "c1s"), ("cg", "c1"), ("c1", "g1"), ("c2", "g1"),
-    ("g1", "c2"),
+    ("g1", "c2"), ("c1z",),
 ]
 # pools: list of (capacity dict, blocker demand dict or None)
 POOLSETS = [
@@ -296,7 +298,7 @@ def main(tier, seed):
     run_generic(
         "C13", tier, seed, items(tier), job, extra=(tier, seed), engine="e3",
         rule="all task sets of size <=3 (thorough: 4 on a reduced menu) x priority ranks "
-             "{1,2,3} (ties included) x 10 strategy lists x 8 pool sets (single- and "
+             "{1,2,3} (ties included) x 11 strategy lists (one with a zero-quantity entry) x 8 pool sets (single- and "
              "two-worker pools, with and without occupancy) x EDF/FIFO/LSF, first task "
              "fresh or preempted after 1-2 us; real schedule() vs an "
              "independent residual-fit check in priority order",
